@@ -695,8 +695,14 @@ def rule_vec_align(prog, res, rule="R-VEC-ALIGN"):
             for lv, op, rhs, w in ir.writes_of(s_):
                 p_ = ir.ap(lv) or ""
                 if p_.endswith("render_data") or p_.endswith("frame_data"):
-                    for c in ir.calls_in(rhs) if isinstance(rhs, dict) else []:
-                        alloc_fn = c.get("fn")
+                    rhs_ = congr.inline_expr(prog, g, rhs, ptrs=True) if isinstance(rhs, dict) else None   # through locals
+                    top_ = ir.strip(rhs_) if isinstance(rhs_, dict) else None
+                    while isinstance(top_, dict) and top_.get("k") in ("cast", "paren"):
+                        top_ = ir.strip(top_["e"])
+                    if isinstance(top_, dict) and top_.get("k") == "asg":
+                        top_ = ir.strip(top_.get("r"))
+                    if isinstance(top_, dict) and top_.get("k") == "call" and top_.get("fn"):
+                        alloc_fn = top_["fn"]       # the call whose result is stored, not a call among its arguments
     def guarantee_of(name, depth=0):
         if name in ("malloc", "realloc", "calloc"):
             return 16
